@@ -2,6 +2,26 @@
 over the shards; budgets are case counts, never time."""
 
 PROPS = {
+    "C08": {
+        "pkg": "c08", "needs_gw": False, "level": "exploration",
+        "technique": "stateful property-based testing (rapid) against an upload/part model: interleaved create / upload-part / upload-part-copy / list / complete / abort programs over several uploads (also on one key); oracle = concatenation hash, multipart ETag, metadata, isolation and disappearance of uploads",
+        "level_text": ("Generated programs (3-14 steps) over up to 4 concurrent uploads on 3 keys: create with metadata, UploadPart with part numbers "
+                       "{1..5, 10000, 0, 10001, -1, text, empty} and sizes {0, 1, 100, 70001, 5 MiB-1, 5 MiB, 5 MiB+1}, re-upload of a number, "
+                       "UploadPartCopy with 14 source-range forms, ListParts with max / marker, ListMultipartUploads, CompleteMultipartUpload with a "
+                       "generated selection (subsets, permutations, duplicates, missing parts) and ETags {current, stale (of a re-uploaded part), "
+                       "foreign, quoted, missing}, abort, plain PUT on the key, GET, ListObjectsV2. Model: uploads -> latest successful part per "
+                       "number. Checks: complete succeeds only if the selection is valid (existing, strictly ascending, current ETags, all but the "
+                       "last >= 5 MiB); then GET = concatenation (streamed MD5), ETag = md5(md5s)-N, metadata of the initiation; otherwise the "
+                       "key reads exactly as before; part ETag = MD5 of the exact source interval for copies; listings equal the model; parts / "
+                       "uploads never show as objects; closed uploads answer NoSuchUpload; open uploads keep exactly their parts."),
+        "level_note": "a valid completion that is refused is not judged (the statement is 'only if'); open-ended copy ranges are accepted when honoured exactly. In-process engine, xattr or sidecar, both temp-file strategies. Exploration only.",
+        "rule": ("case = (config, ops). Non-trivial: an upload with >= 2 parts is completed, or a completion uses a re-uploaded part, or two uploads are open "
+                 "for the same key; distinct by the full case."),
+        "assumptions": ["in-process engine replicates runGateway wiring", "5 MiB parts are real (the minimum part size is a constant)"],
+        "jobs": [
+            {"run": "TestC08A", "quick": 640, "thorough": 80000, "shards_quick": 16, "shards_thorough": 16},
+        ],
+    },
     "C01": {
         "pkg": "c01", "needs_gw": True, "level": "exploration",
         "technique": "stateful property-based testing (rapid) against a map model: upload / read programs over 1-3 real gateway processes sharing one storage, with restarts; oracle = byte-exact round trip of body, length, ETag, content headers, user metadata, tags, checksums, and agreement of listings / attribute queries with GET",
